@@ -8,6 +8,8 @@ written by harness/c14_mixlinear.c (one answer line per case line).
   vol <vol> <mvol> <mvolbase> <pan> <old_vl> <old_vr> <rampsize>   -> vol_l vol_r vl vr delta_l delta_r
   dlt <v> <old> <rampsize>                      -> delta
   pan <fp> <mix> <mono> <surround>              -> voice pan
+  pp <pan.val> <panbrello> <pan_envelope> <rpv> <it_mode> <mono> <surround> <mix>
+                                                -> pan handed to libxmp_virt_setpan, xc->info_finalpan (`processPan`)
   mst <chn> <modchn> <numtracks> <master> <smix> <root> <muted> <fv>   -> vi->vol
   dmx <eight> <unsigned> <amp> <word>           -> output sample (as stored, unsigned reading for unsigned formats)
   kern <stereo> <ac> <lsh> <vl> <vr> <oldvl> <oldvr> <dl> <dr> <rsize> <count> <samples…>
@@ -77,6 +79,9 @@ def answer (ws : List String) : Option String :=
     some s!"{lr.1} {lr.2} {level lr.1} {level lr.2} {rampDelta lr.1 (pInt ovl) (pInt rs)} {rampDelta lr.2 (pInt ovr) (pInt rs)}"
   | ["dlt", v, old, r] => some s!"{rampDelta (pInt v) (pInt old) (pInt r)}"
   | ["pan", fp, mix, mono, sur] => some s!"{voicePan (pInt fp) (pInt mix) (pBool mono) (pBool sur)}"
+  | ["pp", pv, pb, pe, rpv, it, mono, sur, mix] =>
+    let p : PanSrc := { panVal := pInt pv, panbrello := pInt pb, penv := pInt pe, rpv := pInt rpv, itMode := pBool it }
+    some s!"{processPan p (pInt mix) (pBool mono) (pBool sur)} {infoFinalPan p (pInt mix) (pBool mono) (pBool sur)}"
   | ["mst", chn, modchn, nt, master, smix, root, muted, fv] =>
     let c : PlayerVol := { modChn := pNat modchn, numTracks := pNat nt, masterVol := pInt master, smixVol := pInt smix }
     let r := pNat root
